@@ -437,7 +437,11 @@ fn parse_batch() {
                         let m2 = rspirv::dr::load_words(&a);
                         let same = match m2 { Ok(m2) => m2.assemble() == a, Err(_) => false };
                         let words: Vec<String> = a.iter().skip(5).map(|w| format!("{:x}", w)).collect();
-                        println!("Ok {} rt={} words={}", m.all_inst_iter().count(), same as u8, words.join(","));
+                        // C01: same instruction words as the input (as multisets of instructions)
+                        let split = |ws: &[u32]| -> Vec<Vec<u32>> { let mut out = vec![]; let mut i = 0; while i < ws.len() { let wc = (ws[i] >> 16) as usize; if wc == 0 || i + wc > ws.len() { break; } out.push(ws[i..i + wc].to_vec()); i += wc; } out.sort(); out };
+                        let inw: Vec<u32> = bytes[20.min(bytes.len())..].chunks_exact(4).map(|c| u32::from_le_bytes([c[0], c[1], c[2], c[3]])).collect();
+                        let same_insts = split(&inw) == split(&a[5.min(a.len())..]);
+                        println!("Ok {} rt={} same={} words={}", m.all_inst_iter().count(), same as u8, same_insts as u8, words.join(","));
                     }
                     Err(_) => println!("PANIC assemble/disassemble"),
                 }
@@ -517,6 +521,134 @@ fn reflect_sweep() {
     println!("checked TensorAddressingOperands {}", n);
 }
 
+/// traversal-sweep: BOUNDED exhaustive enumeration of dr::Module shapes on the real crate (C15).
+/// Sweep A: header/memory-model present or absent x every one of the 10 vector sections with 0,1,2 instructions
+///          (x 3 function shapes); Sweep B: 0..2 functions, each with def/end present or absent, 0..2 parameters,
+///          0..2 blocks with label present or absent and 0..2 instructions (x 3 global shapes).
+/// Instructions are tagged 1,2,3.. in layout order; checks all six traversals and Module::assemble().
+fn traversal_sweep() {
+    use rspirv::binary::Assemble;
+    use rspirv::dr::{Block, Function, Instruction, Module, ModuleHeader};
+    fn inst(tag: &mut u32) -> Instruction { *tag += 1; Instruction::new(spirv::Op::Nop, None, Some(*tag), vec![]) }
+    fn sec(n: usize, tag: &mut u32) -> Vec<Instruction> { (0..n).map(|_| inst(tag)).collect() }
+    fn opt(p: bool, tag: &mut u32) -> Option<Instruction> { if p { Some(inst(tag)) } else { None } }
+    // function shape: (def, end, params, [(label, insts); nb])
+    type FShape = (bool, bool, usize, Vec<(bool, usize)>);
+    fn fshapes() -> Vec<FShape> {
+        let mut blocks: Vec<Vec<(bool, usize)>> = vec![vec![]];
+        let one: Vec<(bool, usize)> = [false, true].iter().flat_map(|&l| (0..3).map(move |n| (l, n))).collect();
+        for a in &one { blocks.push(vec![*a]); }
+        for a in &one { for b in &one { blocks.push(vec![*a, *b]); } }
+        let mut out = vec![];
+        for &d in &[false, true] { for &e in &[false, true] { for p in 0..3 { for b in &blocks { out.push((d, e, p, b.clone())); } } } }
+        out
+    }
+    fn build(header: bool, mm: bool, secs: &[usize; 10], fns: &[&FShape]) -> (Module, u32, Vec<(u32, u32)>) {
+        let mut tag = 0u32;
+        let mut m = Module::new();
+        if header { m.header = Some(ModuleHeader::new(77)); }
+        m.capabilities = sec(secs[0], &mut tag);
+        m.extensions = sec(secs[1], &mut tag);
+        m.ext_inst_imports = sec(secs[2], &mut tag);
+        m.memory_model = opt(mm, &mut tag);
+        m.entry_points = sec(secs[3], &mut tag);
+        m.execution_modes = sec(secs[4], &mut tag);
+        m.debug_string_source = sec(secs[5], &mut tag);
+        m.debug_names = sec(secs[6], &mut tag);
+        m.debug_module_processed = sec(secs[7], &mut tag);
+        m.annotations = sec(secs[8], &mut tag);
+        m.types_global_values = sec(secs[9], &mut tag);
+        let globals = tag;
+        let mut ranges = vec![];
+        for f in fns {
+            let start = tag;
+            let mut fun = Function::new();
+            fun.def = opt(f.0, &mut tag);
+            fun.parameters = sec(f.2, &mut tag);
+            for (l, n) in &f.3 {
+                let mut b = Block::new();
+                b.label = opt(*l, &mut tag);
+                b.instructions = sec(*n, &mut tag);
+                fun.blocks.push(b);
+            }
+            fun.end = opt(f.1, &mut tag);
+            ranges.push((start, tag));
+            m.functions.push(fun);
+        }
+        (m, globals, ranges)
+    }
+    fn seq_ok<'a>(it: impl Iterator<Item = &'a Instruction>, lo: u32, hi: u32) -> bool {
+        let mut next = lo;
+        for i in it { next += 1; if i.result_id != Some(next) { return false; } }
+        next == hi
+    }
+    fn seq_ok_mut<'a>(it: impl Iterator<Item = &'a mut Instruction>, lo: u32, hi: u32) -> bool {
+        let mut next = lo;
+        for i in it { next += 1; if i.result_id != Some(next) { return false; } }
+        next == hi
+    }
+    fn check(mut m: Module, globals: u32, ranges: &[(u32, u32)]) -> Option<&'static str> {
+        let total = ranges.last().map(|r| r.1).unwrap_or(globals);
+        if !seq_ok(m.all_inst_iter(), 0, total) { return Some("all_inst_iter"); }
+        if !seq_ok(m.global_inst_iter(), 0, globals) { return Some("global_inst_iter"); }
+        if !seq_ok_mut(m.all_inst_iter_mut(), 0, total) { return Some("all_inst_iter_mut"); }
+        if !seq_ok_mut(m.global_inst_iter_mut(), 0, globals) { return Some("global_inst_iter_mut"); }
+        for (k, r) in ranges.iter().enumerate() {
+            if !seq_ok(m.functions[k].all_inst_iter(), r.0, r.1) { return Some("Function::all_inst_iter"); }
+            if !seq_ok_mut(m.functions[k].all_inst_iter_mut(), r.0, r.1) { return Some("Function::all_inst_iter_mut"); }
+        }
+        let words = m.assemble();
+        let mut expect = vec![];
+        if let Some(h) = &m.header { h.assemble_into(&mut expect); }
+        for t in 1..=total { expect.push(2u32 << 16); expect.push(t); }
+        if words != expect { return Some("Module::assemble"); }
+        None
+    }
+    let shapes = fshapes();
+    let probe_fns: Vec<Vec<&FShape>> = vec![vec![], vec![&shapes[shapes.len() - 1]], vec![&shapes[7], &shapes[shapes.len() - 1]]];
+    let mut n = 0u64;
+    let mut bad = 0u64;
+    // sweep A
+    for code in 0..(4 * 59049u32) {
+        let header = code & 1 == 1;
+        let mm = code & 2 == 2;
+        let mut c = code / 4;
+        let mut secs = [0usize; 10];
+        for s in secs.iter_mut() { *s = (c % 3) as usize; c /= 3; }
+        for fns in &probe_fns {
+            let (m, g, r) = build(header, mm, &secs, fns);
+            n += 1;
+            if let Some(what) = check(m, g, &r) {
+                bad += 1;
+                if bad <= 5 { println!("MISMATCH {} header={} mm={} sections={:?} functions={:?}", what, header, mm, secs, fns); }
+            }
+        }
+    }
+    println!("checked A {}", n);
+    // sweep B
+    let probe_secs: [[usize; 10]; 3] = [[0; 10], [1; 10], [2, 0, 1, 0, 2, 1, 0, 2, 1, 2]];
+    let mut nb = 0u64;
+    for ps in &probe_secs {
+        for &header in &[false, true] {
+            let (m, g, r) = build(header, true, ps, &[]);
+            nb += 1;
+            if let Some(what) = check(m, g, &r) { bad += 1; if bad <= 5 { println!("MISMATCH {} sections={:?} no functions", what, ps); } }
+            for f1 in &shapes {
+                let (m, g, r) = build(header, false, ps, &[f1]);
+                nb += 1;
+                if let Some(what) = check(m, g, &r) { bad += 1; if bad <= 5 { println!("MISMATCH {} sections={:?} functions={:?}", what, ps, f1); } }
+            }
+        }
+        for f1 in &shapes { for f2 in &shapes {
+            let (m, g, r) = build(true, true, ps, &[f1, f2]);
+            nb += 1;
+            if let Some(what) = check(m, g, &r) { bad += 1; if bad <= 5 { println!("MISMATCH {} sections={:?} functions={:?} {:?}", what, ps, f1, f2); } }
+        } }
+    }
+    println!("checked B {}", nb);
+    println!("mismatches {}", bad);
+}
+
 fn main() {
     let args: Vec<String> = env::args().collect();
     match args.get(1).map(|s| s.as_str()) {
@@ -532,6 +664,7 @@ fn main() {
         Some("consumer-script") => consumer_script(&args[2..]),
         Some("parse-batch") => parse_batch(),
         Some("reflect-sweep") => reflect_sweep(),
+        Some("traversal-sweep") => traversal_sweep(),
         Some("builder-batch") => {
             use std::io::BufRead;
             std::panic::set_hook(Box::new(|_| {}));
